@@ -4,6 +4,7 @@
 -/
 import GormModel.Model.Scan
 import GormModel.Lemmas.Scan
+import GormModel.Gen.BackfillFacts
 namespace Gorm
 open Gorm.Scan
 
@@ -168,10 +169,11 @@ theorem C03_backfill_mixed_counterexample :
     createSlice false 0 [0, 100, 0] = ([100, 100, 101], [1, 100, 101], 101) ∧ Mixed [0, 100, 0] := by
   decide
 
-/-- CREATE FROM A SLICE OF MAPS, no RETURNING: every map receives the key of its own row (rows get m+1 … m+n) and
-    the caller's slice keeps its length — the negation of finding F18's pattern (RETURNING-capable dialector) -/
-theorem C03_maps_backfill_partial (returning ptrDest : Bool) (m : Int) (n : Nat) (h : returning = false) :
-    createMaps returning ptrDest m n = some ((up (m + 1) n).map some, n) := by
+/-- CREATE FROM A SLICE OF MAPS WITHOUT KEY ENTRIES, no RETURNING: every map receives the key of its own row (rows get
+    m+1 … m+n) and the caller's slice keeps its length — the negation of finding F18's pattern (RETURNING-capable
+    dialector); holds for the unrepaired and for the repaired map loop (`skipPreset` arbitrary) -/
+theorem C03_maps_backfill_partial (skipPreset returning ptrDest : Bool) (m : Int) (n : Nat) (h : returning = false) :
+    createMaps skipPreset returning ptrDest m n = some ((up (m + 1) n).map some, n) := by
   subst h
   simp only [createMaps, backfillMaps, Bool.false_eq_true, if_false, if_true, List.length_replicate]
   rw [backfillMaps_go_present]
@@ -181,7 +183,8 @@ theorem C03_maps_backfill_partial (returning ptrDest : Bool) (m : Int) (n : Nat)
 /-- FINDING F18 (kernel-checked witness): with RETURNING, `Create(&[]map{…}{{…},{…}})` leaves both maps without
     a key and the caller's slice with 4 elements; by value the call fails -/
 theorem C03_maps_returning_counterexample :
-    createMaps true true 0 2 = some ([none, none], 4) ∧ createMaps true false 0 2 = none := by
+    (∀ skipPreset, createMaps skipPreset true true 0 2 = some ([none, none], 4)) ∧
+    (∀ skipPreset, createMaps skipPreset true false 0 2 = none) := by
   decide
 
 /-- dialects whose LastInsertId is the FIRST generated id (forward loop, create.go:170): all-zero batches -/
@@ -472,25 +475,103 @@ theorem C03_backfill_generated_key_partial (k rowKey lastId : Int) (h : if k = 0
   · rw [if_pos hk] at h ⊢; exact h.symm
   · rw [if_neg hk] at h ⊢; exact h.symm
 
-/-- FINDING F25 (kernel-checked witness): no RETURNING, the key is produced by a DB expression (row key 465751923), the
-    driver reports insert id 1 (SQLite's rowid): the guards pass (`hasAutoPk` = HasDefaultValue) and the record receives
-    key 1 — not the key of the row that stores it. -/
+/-- FINDING F25 (kernel-checked witness, the UNREPAIRED guard: `guardKind = false`): no RETURNING, the key is a string
+    produced by a DB expression (row key 465751923; `hasDefault`, not auto-increment, not an integer type), the driver
+    reports insert id 1 (SQLite's rowid): the guard passes on `HasDefaultValue` alone and the record receives key 1 — not
+    the key of the row that stores it. -/
 theorem C03_backfill_generated_key_counterexample :
-    createBackfillSlice true true 1 [0] ⟨1, some 1⟩ = [1] ∧ backfillOne 0 1 = 1 ∧ (1 : Int) ≠ 465751923 := by decide
+    backfillGuard false true false false = true ∧
+    createBackfill false true true false false 1 [0] ⟨1, some 1⟩ = [1] ∧ backfillOne 0 1 = 1 ∧ (1 : Int) ≠ 465751923 := by decide
 
-/-- FINDING F26 (kernel-checked witness): no RETURNING, `Create(&[]map{{"id":100001,…},{"id":100011,…}})` through a model
-    with an auto-increment key: the rows keep the preset keys (100001, 100011), LastInsertId is 100011, and the map loop
-    (create.go:128-147) hands out 100010, 100011 — map 0 carries a key that is not its row's.  The negation of the pattern
-    (maps without keys) is `C03_maps_backfill_partial`. -/
+/-- GENERATED NON-INTEGER KEYS without RETURNING, FULL STRENGTH for the repaired guard (`guardKind = true`, create.go asks for
+    `AutoIncrement` or an integer data type): for a key the insert id cannot stand for, the back-fill writes NOTHING —
+    whatever the driver reports, for every slice, loop direction and increment.  So (second part) with `rowKeys` the keys
+    of the rows that store the records (a preset key is stored as is), every record carries either the key of its row or
+    the untouched zero (without RETURNING gorm has no channel to learn a generated non-integer key — the stated
+    latitude); it never carries another value. -/
+theorem C03_backfill_generated_key (reversed hasDefault : Bool) (inc : Int) (ks : List Key) (r : ExecResult) :
+    createBackfill true reversed hasDefault false false inc ks r = ks ∧
+    ∀ (rowKeys : List Key), (∀ (i : Nat) (k : Key), ks[i]? = some k → k ≠ 0 → rowKeys[i]? = some k) →
+      ∀ (i : Nat) (k : Key), (createBackfill true reversed hasDefault false false inc ks r)[i]? = some k →
+        k = 0 ∨ rowKeys[i]? = some k := by
+  have e : createBackfill true reversed hasDefault false false inc ks r = ks := by
+    have hg : backfillGuard true hasDefault false false = false := by cases hasDefault <;> rfl
+    rw [createBackfill, hg, createBackfillSlice]
+    split
+    · rfl
+    · split
+      · rfl
+      · split
+        · rfl
+        · simp
+  refine ⟨e, fun rowKeys hrows i k hk => ?_⟩
+  rw [e] at hk
+  by_cases h0 : k = 0
+  · exact Or.inl h0
+  · exact Or.inr (hrows i k hk h0)
+
+/-- … and the repaired guard changes nothing for the keys the insert id DOES stand for (auto-increment, or integer data
+    type): there both guards are the old `HasDefaultValue` test, so the theorems above about `createSlice` /
+    `createInBatches` (stated for an auto-increment integer key) hold on either tree. -/
+theorem C03_backfill_guard_id_keys (guardKind hasDefault autoInc intType : Bool) (h : autoInc = true ∨ intType = true) :
+    backfillGuard guardKind hasDefault autoInc intType = hasDefault := by
+  rcases h with h | h <;> subst h <;> cases guardKind <;> cases hasDefault <;> simp [backfillGuard]
+
+/-- the guard of the tree that is being verified (regenerated fact `Gen.backfillGuardsKeyKind`, extract/gen_c03.go): EITHER
+    it asks for a key the insert id can stand for and the full-strength theorem holds for it, OR it is the guard that tests
+    `HasDefaultValue` only and the listed witness of F25 receives insert id 1. -/
+theorem C03_backfill_generated_key_current_tree :
+    (Gen.backfillGuardsKeyKind = true ∧
+      ∀ (reversed hasDefault : Bool) (inc : Int) (ks : List Key) (r : ExecResult),
+        createBackfill Gen.backfillGuardsKeyKind reversed hasDefault false false inc ks r = ks) ∨
+    (Gen.backfillGuardsKeyKind = false ∧
+      createBackfill Gen.backfillGuardsKeyKind true true false false 1 [0] ⟨1, some 1⟩ = [1]) := by
+  cases hg : Gen.backfillGuardsKeyKind with
+  | true => exact Or.inl ⟨rfl, fun rev hd inc ks r => (C03_backfill_generated_key rev hd inc ks r).1⟩
+  | false => exact Or.inr ⟨rfl, by decide⟩
+
+/-- FINDING F26 (kernel-checked witness, the UNREPAIRED map loop: `skipPreset = false`): no RETURNING,
+    `Create(&[]map{{"id":100001,…},{"id":100011,…}})` through a model with an auto-increment key: the rows keep the preset
+    keys (100001, 100011), LastInsertId is 100011, and the map loop (create.go:128-147) hands out 100010, 100011 — map 0
+    carries a key that is not its row's. -/
 theorem C03_maps_preset_keys_counterexample :
     (dbInsert 0 [100001, 100011]).1 = [100001, 100011] ∧ lastRowId (dbInsert 0 [100001, 100011]).1 = some 100011 ∧
-    backfillMaps true [true, true] 100011 = [some 100010, some 100011] := by decide
+    backfillMaps false true [some 100001, some 100011] 100011 = [some 100010, some 100011] ∧
+    (createMapsKeys false 0 [100001, 100011]).1 = [some 100010, some 100011] := by decide
+
+/-- CREATE FROM A SLICE OF MAPS, no RETURNING, FULL STRENGTH for the repaired map loop (`skipPreset = true`): for every table
+    state and every batch of maps that does not mix maps with and without a key (the mix is finding F9's pattern: the
+    LastInsertId arithmetic itself) — in particular maps that ALL carry preset keys, the former pattern of F26 — every map
+    carries the key of the row that stores it afterwards. -/
+theorem C03_maps_backfill (m : Int) (hm : 0 ≤ m) (ks : List Key) (hmix : ¬ Mixed ks) :
+    (createMapsKeys true m ks).1 = (createMapsKeys true m ks).2.1.map some ∧
+    (createMapsKeys true m ks).2.1 = (dbInsert m ks).1 := by
+  have h2 : (createMapsKeys true m ks).2.1 = (dbInsert m ks).1 := by simp [createMapsKeys]
+  exact ⟨by rw [h2]; exact createMapsKeys_uniform m ks hm (not_mixed ks hmix), h2⟩
+
+/-- the map loop of the tree that is being verified (regenerated fact `Gen.backfillMapsSkipPreset`): EITHER it leaves maps
+    that carry a key alone and the full-strength theorem holds for it, OR it writes into every map and the listed witness
+    of F26 ends with 100010 in the map whose row has key 100001. -/
+theorem C03_maps_preset_keys_current_tree :
+    (Gen.backfillMapsSkipPreset = true ∧
+      ∀ (m : Int), 0 ≤ m → ∀ (ks : List Key), ¬ Mixed ks →
+        (createMapsKeys Gen.backfillMapsSkipPreset m ks).1 = (dbInsert m ks).1.map some) ∨
+    (Gen.backfillMapsSkipPreset = false ∧
+      (createMapsKeys Gen.backfillMapsSkipPreset 0 [100001, 100011]).1 = [some 100010, some 100011] ∧
+      (dbInsert 0 [100001, 100011]).1 = [100001, 100011]) := by
+  cases hg : Gen.backfillMapsSkipPreset with
+  | true => exact Or.inl ⟨rfl, fun m hm ks hmix => by rw [(C03_maps_backfill m hm ks hmix).1, (C03_maps_backfill m hm ks hmix).2]⟩
+  | false => exact Or.inr ⟨rfl, by decide⟩
+
+/-- the back-fill code the two facts are about was found by the extractor (they are not about nothing) -/
+theorem C03_backfill_facts_found : Gen.backfillCreateFound = true ∧ Gen.backfillMapsLoopFound = true := by decide
 
 /-- non-vacuity: representable values exist at the boundaries; the partial theorem's hypothesis is satisfiable
     by non-trivial batches -/
 example : representable { base := .int .w8 } (some (.int .i8 (-128))) = true := by decide
 example : representable { base := .uint .w64, ptr := true } (some (.int .u64 9223372036854775807)) = true := by decide
 example : ¬ Mixed [0, 0, 0] ∧ ¬ Mixed [7, 9] := by decide
+example : (createMapsKeys true 5 [100001, 100011]).1 = [some 100001, some 100011] ∧ (createMapsKeys true 5 [0, 0]).1 = [some 6, some 7] := by decide
 example : ∀ e ∈ [((0 : Key), some (5 : Key)), (9, none), (0, some 6)], (e.1 = 0 ↔ e.2.isSome = true) := by decide
 /-- and out-of-width values are really changed by the setter (the hypothesis is needed) -/
 example : setField { base := .int .w8 } none (.val false (.int .i64 300)) = .ok (some (.int .i8 44)) := by rfl
